@@ -717,10 +717,15 @@ func checkC15(line string, dist map[string]int) (detail, sig, class string) {
 	if len(fs) > 0 {
 		detail = fs[0]
 	} else if emptyFail != "" {
+		// known finding: only when the sole failure is about comments without text and
+		// the source really contains one
 		detail = emptyFail
+		if nEmpty > 0 {
+			class = "empty-comment-dropped"
+		}
 	}
 	if len(g.comments) > 0 {
 		sig = fmt.Sprintf("own=%d trail=%d empty=%d", nOwn, nTrail, nEmpty)
 	}
-	return detail, sig, ""
+	return detail, sig, class
 }
